@@ -14,7 +14,7 @@ from __future__ import annotations
 
 import ast
 
-from ..core import AnalysisError, const_value, norm, walk_own, walk_stmts, names_in
+from ..core import same_func, AnalysisError, const_value, norm, walk_own, walk_stmts, names_in
 from ..paths import enum_paths, canon_test
 from . import c03
 from .c09 import guards_of
@@ -56,7 +56,9 @@ def check(ctx):
 
 def r17_1(ctx):
     repo = ctx.repo
-    sniff = repo.func("gaftools.utils", "is_file_gzipped", "R17.1")
+    from ..core import find_sniffer
+
+    sniff = find_sniffer(repo, "R17.1")
     ctx.analysed_func(sniff)
     src = norm(sniff.node)
     p0 = sniff.params[0]
@@ -105,7 +107,7 @@ def r17_1(ctx):
             for t, pol in g:
                 while isinstance(t, ast.UnaryOp) and isinstance(t.op, ast.Not):
                     t, pol = t.operand, not pol
-                if isinstance(t, ast.Call) and ctx.repo.resolve_call(f, t) is sniff and norm(t.args[0]) == path:
+                if isinstance(t, ast.Call) and same_func(ctx.repo.resolve_call(f, t), sniff) and norm(t.args[0]) == path:
                     sn.append((t, pol))
             if not sn:
                 ctx.violated("R17.1", f.where(c), f"`{norm(c)}` opens the GAF without sniffing its compression: a compressed (or, for a compressed-only opener, a plain) input is misread", key_of(f, f"unsniffed-open:{norm(c)}"))
@@ -137,12 +139,23 @@ def stmt_of(f, target):
     return best
 
 
+GZ_ATTRS = set()
+
+
 def r17_2(ctx):
     """For every function that reads a line from a maybe-BGZF handle: on every path from the read to a str-only
     use of the line, a decode has happened when the line can be bytes."""
     repo = ctx.repo
     n_sites = 0
     from ..core import tail_inlined as _ti
+
+    # the attribute of the reader that records "opened as BGZF" (set True in the compressed branch of its opener)
+    _init = repo.find_func("gaftools.gaf", "GAF.__init__")
+    if _init is not None:
+        for s_ in c03.opener_shape(_init):
+            for x in s_[0].body:
+                if isinstance(x, ast.Assign) and const_value(x.value, None) is True and norm(x.targets[0]).startswith("self."):
+                    GZ_ATTRS.add(norm(x.targets[0]).split(".", 1)[1])
 
     for f0 in repo.all_funcs():
         f = _ti(repo, f0)
@@ -183,7 +196,13 @@ def r17_2(ctx):
             passes_on = False
             for p in paths:
                 state = "maybe-bytes"
+                gz_alias = set()
                 for e in p.events:
+                    if e.kind == "stmt" and isinstance(e.node, ast.Assign) and len(e.node.targets) == 1 and isinstance(e.node.targets[0], ast.Name):
+                        if norm(e.node.value).split(".")[-1] in GZ_ATTRS and isinstance(e.node.value, ast.Attribute):
+                            gz_alias.add(e.node.targets[0].id)
+                        else:
+                            gz_alias.discard(e.node.targets[0].id)
                     node = e.node if e.kind in ("stmt", "test") else None
                     if e.kind == "exc":
                         # a TypeError raised by a str operation on bytes and handled: the handler decodes
@@ -199,7 +218,7 @@ def r17_2(ctx):
                             state = "bytes" if tp else ("str" if state != "bytes" else state)
                         elif t == f"isinstance({var}, str)":
                             state = "str" if tp else state
-                        elif t.endswith("gz_flag"):
+                        elif t.split(".")[-1] in GZ_ATTRS or t in gz_alias:
                             state = "bytes" if tp else "str"
                         continue
                     # statement
@@ -230,20 +249,46 @@ def r17_2(ctx):
     # the parser itself: decode under gz_flag before splitting
     from ..core import tail_inlined
 
-    pf = tail_inlined(repo, repo.func("gaftools.gaf", "GAF.parse_gaf_line", "R17.2"))
-    # path-based: on every path through the parser up to the tab split, the line is decoded exactly when gz_flag is set
+    pf0 = repo.func("gaftools.gaf", "GAF.parse_gaf_line", "R17.2")
+    pf = tail_inlined(repo, pf0)
+    # the flag: the attribute the opener sets to True in its BGZF branch only
+    init = repo.func("gaftools.gaf", "GAF.__init__", "R17.2")
+    flag = None
+    for s_ in c03.opener_shape(init):
+        trues = [norm(x.targets[0]) for x in s_[0].body if isinstance(x, ast.Assign) and const_value(x.value, None) is True and norm(x.targets[0]).startswith("self.")]
+        trues_plain = [norm(x.targets[0]) for x in s_[0].orelse if isinstance(x, ast.Assign) and const_value(x.value, None) is True]
+        if len(trues) == 1 and trues[0] not in trues_plain:
+            flag = trues[0]
+    if flag is None:
+        raise AnalysisError("R17.2", init.where(), "cannot find the attribute that records that the file was opened as BGZF")
+    fattr = flag.split(".", 1)[1]
+    # the parser may test the attribute itself, or a parameter that every caller binds to that attribute
+    gz_names = {flag}
+    for p_ in pf0.params:
+        if p_ == "self":
+            continue
+        binds = []
+        for cf, call in repo.callers_of(pf0):
+            ba = repo.bound_args(cf, call)
+            if ba is not None and p_ in ba:
+                binds.append(norm(ba[p_]))
+        if binds and all(b.endswith("." + fattr) for b in binds):
+            gz_names.add(p_)
+    # path-based: on every path through the parser up to the tab split, the line is decoded exactly when the flag is set
     pp = enum_paths(pf.node.body, rule="R17.2", where=pf.where(), max_paths=200000)
     ok = True
     seen_gz = set()
-    line_p = pf.params[1]
     for p in pp:
         gz = None
         decoded = False
         split_seen = False
+        palias = set()
         for e in p.events:
+            if e.kind == "stmt" and isinstance(e.node, ast.Assign) and len(e.node.targets) == 1 and isinstance(e.node.targets[0], ast.Name) and norm(e.node.value) in gz_names:
+                palias.add(e.node.targets[0].id)
             if e.kind == "test":
                 t, tp = canon_test(e.node, e.pol)
-                if t.endswith("gz_flag") and gz is None:
+                if (t in gz_names or t in palias) and gz is None:
                     gz = tp
             elif e.kind == "stmt":
                 src = norm(e.node)
@@ -251,17 +296,15 @@ def r17_2(ctx):
                     decoded = True
                 if ".split('\\t')" in src and not split_seen:
                     split_seen = True
-                    if gz is None or decoded != gz:
+                    if gz is None:
+                        raise AnalysisError("R17.2", pf.where(e.node), "the parser splits a line on a path that does not test the BGZF flag (or a parameter bound to it by every caller)")
+                    if decoded != gz:
                         ok = False
                     seen_gz.add(gz)
         if split_seen and len(seen_gz) == 2 and not ok:
             break
     ok = ok and seen_gz == {True, False}
-    init = repo.func("gaftools.gaf", "GAF.__init__", "R17.2")
-    flag_ok = False
-    for s in c03.opener_shape(init):
-        flag_ok = any(norm(x) == "self.gz_flag = True" for x in s[0].body) and not any("gz_flag = True" in norm(x) for x in s[0].orelse)
-    ctx.check(ok and flag_ok, "R17.2", pf.where(), "the GAF parser decodes exactly when the file was opened as BGZF (gz_flag is set in the BGZF branch of the opener only)", key_of(pf, "parser-decode"))
+    ctx.check(ok, "R17.2", pf.where(), f"the GAF parser decodes exactly when the file was opened as BGZF (`{flag}` is set in the BGZF branch of the opener only)", key_of(pf, "parser-decode"))
     # writer side
     wt = repo.find_func("gaftools.cli.sort", "write_to_file")
     if wt is not None:
